@@ -253,3 +253,7 @@ package transport
 //@   at call! openBase#1 assert #the-session-is-set-up-by-the-common-part-with-its-host-key-checking arg0 == a
 //@   at call RequestPty#1 assert #the-pty-gets-the-configured-size-after-a-successful-handshake err == nil && arg1 == a.TermHeight && arg2 == a.TermWidth
 //@   at call Shell#1 assert #the-shell-starts-only-after-the-pty-was-granted err == nil
+
+// ---- C07 / C16: the read lock of the transport is released on every way out of the function that took it - a read
+// that fails (the peer is gone) must not leave it held, or the next read and a graceful Close block for ever
+//@ released [C07 C16] Transport.implLock
